@@ -135,11 +135,19 @@ def mc_store(chk):
     chk.mc("MC_Store", "MC_Store_thorough.cfg" if thorough(chk) else "MC_Store.cfg", workers=8, timeout=3000)
 
 
-def drive(chk, family, extra=None):
+def drive(chk, family, extra=None, name=None):
     t = "thorough" if thorough(chk) else "quick"
-    trace = os.path.join(chk.wd, family + ".ndjson")
-    pmv(["drive", family, "--seed", chk.seed, "--tier", t, "--out", trace] + (extra or []))
+    trace = os.path.join(chk.wd, (name or family) + ".ndjson")
+    stats = chk.cov.setdefault("driver_stats", {})
+    pmv(["drive", family, "--seed", chk.seed, "--tier", t, "--out", trace] + (extra or []), stats=stats)
     return trace
+
+
+def need_stat(chk, key, least=1):
+    """non-vacuity: the driver must have exercised the situation the property is about"""
+    v = chk.cov.get("driver_stats", {}).get(key, 0)
+    if v < least:
+        raise ToolError(f"driver never exercised '{key}' (got {v}, need {least}): the check would be vacuous")
 
 
 def nth_event(trace, pred, n=1):
@@ -257,6 +265,9 @@ def c01(chk):
     mc_store(chk)
     trace = drive(chk, "bulk")
     chk.validate("Trace_Archive", trace, "bulk", scope=scope_of("C01", "C04"), parallel=6, cuts=True, timeout=3000)
+    trace_s = drive(chk, "steer")
+    need_stat(chk, "steer_saves_with_leaf_directories", 4)
+    chk.validate("Trace_Archive", trace_s, "steer", scope=scope_of("C01", "C04"), parallel=8, cuts=True, timeout=3000)
     seg = segment_with(trace, lambda o: o["ev"] == "Observe")
     def c_coord(o):
         o["obs"]["coords"][0] += 1
@@ -281,6 +292,10 @@ def c02(chk):
     mc_store(chk)
     trace = drive(chk, "bulk")
     chk.validate("Trace_Archive", trace, "bulk", scope=scope_of("C02"), parallel=6, cuts=True, timeout=3000)
+    trace_s = drive(chk, "steer")
+    need_stat(chk, "steer_saves_with_leaf_directories", 4)
+    need_stat(chk, "steer_saves_with_root_near_budget", 4)
+    chk.validate("Trace_Archive", trace_s, "steer", scope=scope_of("C02"), parallel=8, cuts=True, timeout=3000)
     seg = segment_with(trace, lambda o: o["ev"] == "Save" and o["res"] == "ok" and len(o["file"]["tiles"]) >= 2)
     def c_counter(o):
         o["file"]["hdr"][72] ^= 1
@@ -307,7 +322,158 @@ def c02(chk):
                        "non-overlapping entries, tile ranges, three counters, clustered flag, metadata kind")
 
 
-REGISTRY = {"C01": c01, "C02": c02, "C04": c04, "C05": c05, "C07": c07, "C09": c09, "C10": c10, "C16": c16}
+def c03(chk):
+    chk.mc("MC_Tree", "MC_Tree_thorough.cfg" if thorough(chk) else "MC_Tree.cfg", workers=12, timeout=3000)
+    stim, n = gen_stimuli(chk, "MC_Foreign", "Gen_Foreign.cfg", "foreign", timeout=600)
+    trace = drive(chk, "files", ["--mode", "c03", "--stim", stim], name="c03")
+    need_stat(chk, "files_with_leaf_directories", 10)
+    chk.validate("Trace_Archive", trace, "c03", scope=scope_of("C03"), parallel=8, cuts=True, timeout=3000)
+    seg = segment_with_file(trace, lambda o: o["ev"] == "Opened" and o["res"] == "ok" and len(o["tiles"]) >= 2)
+    def c_tok(o):
+        o["tiles"][0]["tok"] += 1
+    neg_segment(chk, seg, c_tok, "opened_tok", "C03")
+    def c_drop(o):
+        o["tiles"].pop()
+    neg_segment(chk, seg, c_drop, "opened_drop", "C03")
+    def c_set(o):
+        o["obs"]["minz"] = (o["obs"]["minz"] + 1) % 256
+    neg_segment(chk, seg, c_set, "opened_setting", "C03")
+    seg = segment_with_file(trace, lambda o: o["ev"] == "ReadDirs" and o["res"] == "ok" and len(o["map"]) >= 1)
+    def c_map(o):
+        o["map"][0]["off"][3] = (o["map"][0]["off"][3] + 1) % 65536
+    neg_segment(chk, seg, c_map, "readdirs", "C03")
+    seg = segment_with_file(trace, lambda o: o["ev"] == "Find" and any(c["res"] > 0 for c in o["cases"]))
+    def c_find(o):
+        for c in o["cases"]:
+            if c["res"] > 0:
+                c["res"] = 0; return
+    neg_segment(chk, seg, c_find, "find", "C03")
+    chk.sample({"stimulus": json.loads(open(stim).readline())})
+    chk.assumptions += ["the assembler of foreign files is part of the harness; every assembled file is first validated by Archive!WellFormed "
+                        "and compared with the generated layout before the library's answers are judged",
+                        "tile bytes are compared as tokens interned by full byte equality"]
+    chk.cov["rule"] = ("TLC enumerates 6912 layouts (24 section orders x 3 gap patterns x 4 tree shapes x 6 entry patterns x 2 metadata forms x 2 leaf "
+                       "sizes); a slice of them (all in thorough) x 4 codecs is assembled, plus random layouts with thousands of entries, nested "
+                       "leaves, runs, shared / unordered offsets, plus the upstream Go fixtures; opened through from_bytes / from_reader / "
+                       "from_async_reader, read_directories (sync/async), find_entry_for_tile_id around every run")
+
+
+def segment_with_file(trace, pred):
+    """the File event preceding the first event matching pred, plus that event"""
+    f = None
+    with open(trace) as fh:
+        for line in fh:
+            o = json.loads(line)
+            if o["ev"] == "File":
+                f = line
+            elif pred(o) and f is not None:
+                return [f, line]
+    raise ToolError("no (File, event) pair for negative control in " + trace)
+
+
+def c11(chk):
+    chk.mc("MC_Tree", "MC_Tree_thorough.cfg" if thorough(chk) else "MC_Tree.cfg", workers=12, timeout=3000)
+    stim, n = gen_stimuli(chk, "MC_Foreign", "Gen_Foreign.cfg", "foreign", timeout=600)
+    trace = drive(chk, "files", ["--mode", "c11", "--stim", stim], name="c11")
+    need_stat(chk, "files_with_leaf_directories", 10)
+    chk.validate("Trace_Archive", trace, "c11", scope=scope_of("C11"), parallel=8, cuts=True, timeout=3000)
+    seg = segment_with_file(trace, lambda o: o["ev"] == "Partial" and o["res"] == "ok" and len(o["tiles"]) >= 1)
+    def c_drop(o):
+        o["tiles"].pop()
+    neg_segment(chk, seg, c_drop, "partial_drop", "C11")
+    def c_err(o):
+        o["res"] = "err"
+    neg_segment(chk, seg, c_err, "partial_err", "C11")
+    def c_hi(o):
+        o["hi"] = {"k": "unb", "v": [0, 0, 0, 0]}; o["lo"] = {"k": "exc", "v": [65535, 65535, 65535, 65535]}
+    neg_segment(chk, seg, c_hi, "partial_range", "C11")
+    chk.sample(json.loads(seg[1]) if len(seg[1]) < 1500 else {"ev": "Partial", "note": "large"})
+    chk.cov["rule"] = ("foreign layouts (as C03), random nested layouts, the Go fixtures and library-written archives with real leaf spill x ranges: "
+                       "every bound-kind pair at 0 / u64::MAX, endpoints steered onto run boundaries +-1 and leaf first IDs +-1, inverted and random "
+                       "ranges; from_bytes_partially / from_reader_partially / from_async_reader_partially and read_directories(_async) with the "
+                       "range; TLC requires the full opening restricted to the range (DirTree!InRange)")
+
+
+def c19(chk):
+    mc_store(chk)
+    chk.mc("MC_Codec", "MC_Codec.cfg", workers=8, timeout=3000)
+    # (1) empty adds inside long histories: refused, and nothing changes
+    trace = drive(chk, "history")
+    chk.validate("Trace_Archive", trace, "history", scope=scope_of("C19"), parallel=6, cuts=True, timeout=3000)
+    # an accepted empty add, or an empty add that changes the retained state, must be rejected by the spec
+    seg = segment_with(trace, lambda o: o["ev"] == "Add" and o["len"] == 0)
+    neg_segment(chk, seg, lambda o: o.update(res="ok"), "empty_ok", "C19")
+    # (2) zero-length directory entries: parser and serialiser
+    tz = os.path.join(chk.wd, "dirzero.ndjson")
+    pmv(["drive", "dir", "--seed", chk.seed, "--tier", chk.tier, "--only-zero", "--out", tz])
+    chk.validate("Trace_Codec", tz, "dirzero", parallel=1, timeout=1200)
+    ev = first_event(tz, lambda o: o["ev"] == "DirZeroRaw")
+    def c_acc(o):
+        o["dec"][0]["res"] = "ok"
+    ev2 = first_event(tz, lambda o: o["ev"] == "Dir" and o["kind"] == "zero")
+    def c_acc2(o):
+        o["enc"][0]["res"] = "ok"
+    chk.neg("Trace_Codec", [vlib.mutate_json_line(ev, c_acc), vlib.mutate_json_line(ev2, c_acc2)], "dirzero")
+    # (3) non-object metadata / unknown internal compression on open and on write
+    tr = drive(chk, "reject")
+    chk.validate("Trace_Archive", tr, "reject", scope=scope_of("C19"), timeout=1200)
+    ev = first_event(tr, lambda o: o["ev"] == "OpenReject" and o["meta_kind"] == "array")
+    def c_open(o):
+        o["obs"][0]["res"] = "ok"
+    p = os.path.join(chk.wd, "neg_reject.ndjson")
+    with open(p, "w") as f:
+        f.write(vlib.mutate_json_line(ev, c_open) + "\n")
+    n, fails, _ = vlib.validate_trace("Trace_Archive", p, chk.wd, "neg_reject", timeout=300)
+    if not fails:
+        raise ToolError("negative control reject: accepted")
+    chk.cov["negative_controls_rejected"] += 1
+    chk.sample(json.loads(ev))
+    chk.cov["rule"] = ("empty adds at random points of long histories (refused; counts and all later observations unchanged), zero-length "
+                       "entries at first / random / last index of directories of 1..200 entries x 4 codecs x sync/async for parser and "
+                       "serialiser, every non-object JSON kind as metadata x 4 codecs x {no tiles, tiles} x 4 open APIs, internal compression "
+                       "byte 0 on open, Unknown internal compression on write (sync/async)")
+
+
+def c06(chk):
+    chk.mc("MC_Spill", "MC_Spill_thorough.cfg" if thorough(chk) else "MC_Spill.cfg", workers=8, timeout=3000)
+    trace = drive(chk, "writedirs")
+    need_stat(chk, "writedirs_spilled", 8)
+    need_stat(chk, "writedirs_single_root", 8)
+    need_stat(chk, "writedirs_first_attempt_inside_window", 2)
+    chk.validate("Trace_Archive", trace, "writedirs", scope=scope_of("C06"), parallel=8, timeout=3000)
+    def is_spill(o):
+        return o["ev"] == "WriteDirs" and o["res"] == "ok" and len(o.get("leaves", [])) >= 2
+    ev = first_event(trace, is_spill)
+    def c_ptr(o):
+        o["root"]["entries"][1]["off"][3] = (o["root"]["entries"][1]["off"][3] + 1) % 65536
+    def c_clen(o):
+        o["root_clen"] = 16258
+    def c_pos(o):
+        o["pos_after"] += 1
+    def c_leaf(o):
+        o["leaves"][0]["entries"][0]["len"][3] = (o["leaves"][0]["entries"][0]["len"][3] % 65535) + 1
+    evs = [vlib.mutate_json_line(ev, f) for f in (c_ptr, c_clen, c_pos, c_leaf)]
+    ev2 = first_event(trace, lambda o: o["ev"] == "WriteDirs" and o["res"] == "ok" and len(o.get("leaves", [])) == 0 and len(o["entries"]) > 0)
+    def c_leaftotal(o):
+        o["leaf_total"] = 5
+    evs.append(vlib.mutate_json_line(ev2, c_leaftotal))
+    chk.neg("Trace_Archive", evs, "writedirs")
+    # whole-archive writes around the budget window
+    trace_s = drive(chk, "steer")
+    need_stat(chk, "steer_saves_with_leaf_directories", 4)
+    chk.validate("Trace_Archive", trace_s, "steer", scope=scope_of("C06", "C02", "C01"), parallel=8, cuts=True, timeout=3000)
+    o = json.loads(ev)
+    chk.sample({"comp": o["comp"], "start_size": o["start_size"], "n_entries": len(o["entries"]), "first_len": o["first_len"],
+                "root_clen": o["root_clen"], "leaf_total": o["leaf_total"], "n_leaves": len(o["leaves"])})
+    chk.assumptions += ["'fits' is measured by the length of the single-root encoding the library itself produces for the list through the same "
+                        "API (for compression none it must equal Len(EncDir) computed by TLC)",
+                        "'exact byte length' of a compressed leaf: the upstream decoder accepts the slice and does not accept it one byte shorter"]
+    chk.cov["rule"] = ("util::write_directories(_async) on lists of 0..300 entries x 4 codecs x start sizes {default, 1, 7, 4096, > n} and on lists "
+                       "steered so that the single-root encoding lands just below / inside / above (16257, 16384], from stream positions 0 and "
+                       "127; plus whole archives steered onto the same window; judged by Trace_Archive!WriteDirsTags / Archive!WellFormed")
+
+
+REGISTRY = {"C01": c01, "C02": c02, "C03": c03, "C04": c04, "C06": c06, "C11": c11, "C19": c19, "C05": c05, "C07": c07, "C09": c09, "C10": c10, "C16": c16}
 
 
 def replay(pid, path):
